@@ -20,8 +20,9 @@ import Octo.Model.Ty
   so that closed terms reduce under `decide`).  For `Is` the fuel `size t + size other` is enough and
   `Octo.Lemmas.TyIs` proves the result fuel-independent from there on.  `TypeSum` returns `none` when the fuel
   runs out; every theorem about it is stated for **every** fuel (`typeSumF n a b = some c → …`), more fuel
-  never changes a result (`typeSumF_mono`), and the driver prints `fuel` should the default ever be too
-  small (which would show up as a correspondence mismatch).
+  never changes a result (`typeSumF_mono`), on well-formed types fuel `2·(size a + size b)` is proved sufficient
+  (`Octo.Lemmas.TySumTotal`), and the driver prints `fuel` should the default ever be too small on a malformed
+  type literal (which would show up as a correspondence mismatch; never observed).
 
   Go maps (`TypeSum` on structs): a `map[string]Type` built by a loop is "last binding wins"
   (`lookupLast`); the output is sorted by field name and the keys are unique, so the nondeterministic map
